@@ -588,8 +588,8 @@ def check_group_key(ctx: Check, tree: Tree, state_identity: bool = True) -> None
                 id_problems.append(f"`{unparse(par)[:90]}` orders the (name, projection) pairs by value: which state carries which projection is lost")
             elif not ordered_ids:
                 id_problems.append(f"`{unparse(gen)[:90]}` lists the pairs in the iteration order of an id set, not by state id")
-    if n_parts < 2:
-        raise AnalysisError(f"{fn.qual}: expected the key to be built from two (name, projection) sequences, found {n_parts}")
+    if n_parts < 1:  # (one sequence in a helper that is called for both sides is fine)
+        id_problems.append("no (name, projection) sequence found in the key")
     if state_identity:
       ctx.verdict(not id_problems, "R-GROUPKEY", f"{fn.qual}::state-identity", tree.loc(fn.node),
                   "group_by_spin_projection: the key keeps the association state id -> (particle, projection), so identical particles with exchanged projections are different groups",
